@@ -45,6 +45,32 @@ def sh(cmd, cwd=None, env=None, timeout=None, stdin=None):
         return 124, (out or "") + "\n[timeout after %ss]" % timeout
 
 
+def sh_watch(cmd, env=None, timeout=None, mem_gb=12):
+    """Run a command under a watchdog: killed on timeout or when its resident set exceeds mem_gb GiB."""
+    p = subprocess.Popen(cmd, env=env, stdout=subprocess.PIPE, stderr=subprocess.STDOUT, text=True, errors="replace")
+    t0 = time.time()
+    killed = ""
+    import threading
+    buf = []
+    th = threading.Thread(target=lambda: buf.append(p.stdout.read()))
+    th.start()
+    while p.poll() is None:
+        time.sleep(0.5)
+        try:
+            for l in open("/proc/%d/status" % p.pid):
+                if l.startswith("VmRSS:"):
+                    if int(l.split()[1]) > mem_gb * 1024 * 1024:
+                        killed = "\n[killed: resident memory above %d GiB]" % mem_gb
+                        p.kill()
+        except Exception:
+            pass
+        if timeout and time.time() - t0 > timeout:
+            killed = "\n[timeout after %ss]" % timeout
+            p.kill()
+    th.join()
+    return (p.returncode if not killed else 124), (buf[0] if buf else "") + killed
+
+
 def sha256_file(path):
     h = hashlib.sha256()
     with open(path, "rb") as f:
@@ -365,7 +391,7 @@ class Ctx:
         t = time.time()
         cmd = [harness_bin] + list(gen_args) + ["-seed", str(self.seed), "-tier", self.tier,
                                                  "-ops", ops, "-out", outp, "-viol", viol, "-stats", stats]
-        rc, out = sh(cmd, env=env, timeout=timeout)
+        rc, out = sh_watch(cmd, env=env, timeout=timeout, mem_gb=mem_gb)
         self.note("harness %s rc=%d (%.1fs)" % (stream, rc, time.time() - t))
         res = {"stream": stream, "mismatches": [], "viol": [], "harness_rc": rc}
         if rc != 0 or not os.path.exists(ops) or not os.path.exists(outp):
